@@ -166,10 +166,31 @@ class Ctx:
     def dump(self):
         return {
             "evaluations": self.evaluations, "counters": self.counters,
-            "nontrivial": sorted(self.nontrivial_keys), "samples": self.samples,
-            "violations": self.violations, "inconclusive": self.inconclusive,
-            "flags": self.flags, "wall_s": time.time() - self.t0, "covers": self.covers,
+            "nontrivial": sorted(self.nontrivial_keys), "samples": _plain(self.samples),
+            "violations": _plain(self.violations), "inconclusive": self.inconclusive,
+            "flags": _plain(self.flags), "wall_s": time.time() - self.t0, "covers": self.covers,
         }
+
+
+def _plain(v, depth=0):
+    """Witnesses travel to the parent as plain data: objects of library classes (enum members of a module that was reloaded
+    meanwhile, coordinates, ...) are replaced by their repr so that nothing depends on class identity."""
+    if v is None or isinstance(v, (bool, str, bytes)) or type(v) in (int, float):
+        return v
+    if isinstance(v, int):
+        return int(v)
+    if isinstance(v, float):
+        return float(v)
+    if depth > 12:
+        return repr(v)[:200]
+    if isinstance(v, dict):
+        return {(k if isinstance(k, (str, int, float, bool, bytes, type(None))) and type(k) in (str, int, float, bool, bytes, type(None))
+                 else repr(k)): _plain(x, depth + 1) for k, x in v.items()}
+    if isinstance(v, (list, tuple)):
+        return [_plain(x, depth + 1) for x in v]
+    if isinstance(v, (set, frozenset)):
+        return sorted((_plain(x, depth + 1) for x in v), key=repr)
+    return repr(v)[:400]
 
 
 def load_module(prop):
